@@ -97,6 +97,8 @@ type Stor struct {
 	meta    storage.FileDesc
 	hasMeta bool
 	locked  bool
+	// renameTo is the destination of the Rename being announced to the hooks (zero otherwise).
+	renameTo storage.FileDesc
 	ops     []Op
 	keepOps bool
 	nops    int
@@ -368,10 +370,15 @@ func (s *Stor) Remove(fd storage.FileDesc) error {
 	return nil
 }
 
+// RenameToLocked is the destination of the Rename a Before/Fault hook is being called for.
+func (s *Stor) RenameToLocked() storage.FileDesc { return s.renameTo }
+
 func (s *Stor) Rename(a, b storage.FileDesc) error {
 	s.mu.Lock()
 	defer s.mu.Unlock()
+	s.renameTo = b
 	_, m := s.pre(OpRename, a, 0)
+	s.renameTo = storage.FileDesc{}
 	if m == FailNoEffect {
 		return ErrInjected
 	}
